@@ -735,8 +735,9 @@ def wide_program(rng):
     """Programs that stress arities up to 9 and many rules (C09's range)."""
     nt = 1 + rng.below(3)
     rels = []
+    ars = rng.shuffle([5, 6, 7, 8, 9]) + [3, 2]          # distinct high arities first, so that every arity 5-9 is hit often
     for i in range(2 + rng.below(3)):
-        ar = rng.choice([5, 6, 7, 8, 9, 9, 3, 2])
+        ar = ars[i]
         rels.append({"name": "p" + suffix(i), "cols": [rng.below(nt) for _ in range(ar)], "func": False})
     f_ar = rng.choice([4, 6, 8])
     args = [rng.below(nt) for _ in range(f_ar)]
@@ -770,6 +771,16 @@ def wide_program(rng):
         ru = fix_single_vars(ru)
         if ru:
             rules.append(ru)
+    # a rule that permutes two same-typed columns of a wide relation: its closure re-derives rows that already exist
+    for p in range(len(rels) - 1):
+        cols = rels[p]["cols"]
+        same = [(i, j) for i in range(len(cols)) for j in range(i + 1, len(cols)) if cols[i] == cols[j]]
+        if same and rng.chance(1, 2):
+            i, j = rng.choice(same)
+            vs = [("var", k) for k in range(len(cols))]
+            sw = list(vs)
+            sw[i], sw[j] = sw[j], sw[i]
+            rules.append([("if", ("pred", p, vs)), ("then", ("pred", p, sw))])
     if not rules:
         return None
     return {"sig": sig, "rules": rules}
